@@ -61,7 +61,7 @@ func (g *Gen) startBalance() *big.Int {
 	case 4:
 		return rpg(1)
 	case 5:
-		v, _ := utility.StrToBigInt("0.031")
+		v, _ := utility.StrToBigInt([]string{"0.031", "0.0011", "0.0015", "0.002"}[g.r.Intn(4)])
 		return v
 	case 6:
 		return rpg(int64(1 + g.r.Intn(50)))
@@ -359,6 +359,9 @@ func (g *Gen) setup(withContracts bool) {
 			to = outsiders[0]
 		}
 		ac := Act{Kind: "ac", To: to, Val: g.smallValue(eoas[g.r.Intn(len(eoas))])}
+		if g.r.Bool() {
+			ac.Val = new(big.Int).Add(rpg(int64(1+g.r.Intn(3))), big.NewInt(int64(g.r.Intn(1000))))
+		}
 		pos := 0
 		if len(sc) > 0 {
 			pos = g.r.Intn(len(sc))
@@ -559,6 +562,39 @@ func (g *Gen) contractTx(first bool) {
 		}
 	}
 	codeless := c.Target != nil && len(w.codes[*c.Target]) == 0
+	if !first && g.r.Chance(1, 5) {
+		// a transaction that fails before Execute assigns gasUsed: the executor then charges the stale
+		// gasUsed of an earlier transaction of the block (deductGasFee must clamp to the balance)
+		var poor []common.Address
+		for _, a := range eoas {
+			b := w.adb.GetBalance(a)
+			if b.Cmp(big.NewInt(1000000000000000)) >= 0 && b.Cmp(big.NewInt(40000000000000000)) < 0 {
+				poor = append(poor, a)
+			}
+		}
+		if len(poor) > 0 {
+			c.Src = poor[g.r.Intn(len(poor))]
+			c.Eth = false
+			c.Value = "0"
+			c.GasLimit = "1000"
+			w.QueueContract(c)
+			return
+		}
+	}
+	if c.Target != nil && w.authC != nil && *c.Target == *w.authC && g.r.Bool() && !c.Eth {
+		// give the sender just enough for the pre-check so that the AUTHCALL (sponsor = origin) drains it
+		for _, a := range w.codes[*w.authC] {
+			if a.Kind == "ac" && a.Val.Cmp(rpg(1)) >= 0 {
+				need := new(big.Int).Add(a.Val, big.NewInt(1000000000000000))
+				need.Add(need, big.NewInt(int64(g.r.Pick(0, 1, 1000000000000))))
+				w.Set(c.Src, need)
+				c.Value = "0"
+				c.GasLimit = fmt.Sprintf("%d", 500000000+g.r.Intn(400000000))
+				w.QueueContract(c)
+				return
+			}
+		}
+	}
 	if c.Target != nil && g.r.Bool() && !codeless {
 		c.Input = g.r.Bytes(g.r.Intn(40))
 	}
